@@ -99,7 +99,9 @@ package oggwriter
 //@ atcall createPageForSerialWithSegments assert callarg3 == specPageFlags(headerType, len(pages) == 0, packetComplete) | ite(len(pages) == 0, headerType &^ 0x07, 0)
 //@ atcall createPageForSerialWithSegments assert callarg4 == ite(packetComplete, granulePos, 18446744073709551615) && callarg5 == serial && callarg6 == old(pageIndex) + uint32(len(pages)) && callarg0 == checksumTable
 //@ ensures len(result) >= 1 && 65025*(len(result)-1) <= len(payload) && len(payload) < 65025*len(result)
+//@ ensures result[len(result)-1].pageIndex == pageIndex + uint32(len(result)-1) && result[len(result)-1].granulePos == granulePos && fresh(result)
 //@ modifies nothing
+//@ loop 0 invariant len(pages) >= 1 ==> pages[len(pages)-1].pageIndex == old(pageIndex) + uint32(len(pages)-1)
 //@ loop 0 invariant 0 <= remainingPayload && payloadOffset + remainingPayload == len(payload) && payloadOffset == 65025 * len(pages) && firstPage == (len(pages) == 0) && pageIndex == old(pageIndex) + uint32(len(pages)) && fresh(pages) && len(pages) < 1<<40
 //@ loop 1 invariant len(segmentTable) <= 255 && cap(segmentTable) == 255 && fresh(segmentTable) && !sameobj(segmentTable, pages) && pagePayloadSize == 255 * len(segmentTable) && !packetComplete && 0 <= remainingPayload && payloadOffset + pagePayloadSize + remainingPayload == len(payload)
 //@ loop 1 invariant payloadOffset == 65025 * len(pages) && firstPage == (len(pages) == 0) && pageIndex == old(pageIndex) + uint32(len(pages)) && fresh(pages) && len(pages) < 1<<40
@@ -136,9 +138,14 @@ package oggwriter
 //@ ensures err == nil ==> track.pageIndex - old(track.pageIndex) == uint32(ghost(wrWrites) - old(ghost(wrWrites))) && ghost(wrWrites) - old(ghost(wrWrites)) >= 1
 //@ ensures err != nil ==> track.pageIndex == old(track.pageIndex)
 //@ ensures track.previousGranulePosition == old(track.previousGranulePosition) && track.serial == old(track.serial)
+// what Close rewrites with the end-of-stream flag is the last page written: its sequence
+// number and granule position are remembered as such
+//@ ensures err == nil && rewriter != nil ==> track.lastPageWritten && track.lastPageIndex == track.pageIndex - 1 && track.lastGranulePosition == granulePos
 //@ modifies obj(track), obj(track.lastPayload)
 //@ loop 0 invariant rangeindex < len(pages) && ghost(wrWrites) == old(ghost(wrWrites)) + uint64(rangeindex + 1) && track.pageIndex == old(track.pageIndex) && track.previousGranulePosition == old(track.previousGranulePosition) && track.serial == old(track.serial)
 //@ loop 0 invariant sameobj(track.lastPayload, old(track.lastPayload)) || fresh(track.lastPayload)
+//@ loop 0 invariant fresh(pages) && !sameobj(pages, track.lastPayload) && pages[len(pages)-1].pageIndex == old(track.pageIndex) + uint32(len(pages)-1) && pages[len(pages)-1].granulePos == granulePos
+//@ loop 0 invariant rewriter != nil && rangeindex == len(pages)-1 ==> track.lastPageWritten && track.lastPageIndex == pages[len(pages)-1].pageIndex && track.lastGranulePosition == pages[len(pages)-1].granulePos
 
 // writeOpusPayload: the granule position is the running total of the packets' sample
 // counts (48 kHz): it grows by exactly the packet's duration, never decreases, is left
